@@ -898,7 +898,39 @@ def run(ctx):
         "integer samples above 2^53 lose precision in float64 (documented: 'intermediate values are 64-bit floats'); y[0] = x[0] is claimed below 2^53",
         "the distribution of numpy's / torch's normal deviates (mean 0, deviation 1) is tested (6 sigma over >= 2e5 samples), not proved",
     ]
+    long_signal_oracle(ctx)
     return C.finish(ctx, "proof")
+
+
+def long_signal_oracle(ctx):
+    """The documented recurrence on signals far longer than the recorded traces (several
+    seconds of audio), where block-wise or buffered rewrites would show."""
+    C.ensure_impl_path()
+    import numpy as np
+    from pydrobert.speech import pre
+
+    nprng = np.random.RandomState(ctx.seed + 41)
+    for n in (32768, 32769, 32770, 65537, ctx.scale(100003, 400009)):
+        for dt in (np.float64, np.float32, np.int16):
+            for in_place in (False, True):
+                c = ctx.rng.choice([0.97, 0.5, -0.3])
+                x = (nprng.randn(n) * 1000).astype(dt)
+                x0 = x.copy()
+                y = pre.Preemphasize(c).apply(x, in_place=in_place)
+                w = x0.astype(np.float64)
+                ref = w.copy()
+                ref[1:] = w[1:] - c * w[:-1]
+                ref = ref.astype(dt)
+                ctx.count("long-signal")
+                ctx.case(dict(kind="long-signal", n=n, dtype=str(np.dtype(dt)), coeff=c, in_place=in_place), nontrivial=True)
+                bad = np.nonzero(y != ref)[0]
+                if y.shape != ref.shape or y.dtype != x0.dtype or len(bad):
+                    i = int(bad[0]) if len(bad) else -1
+                    ctx.fail("Preemphasize.apply differs from y0=x0, yi=xi-c*x(i-1) on a long signal",
+                             dict(n=n, dtype=str(np.dtype(dt)), coeff=c, in_place=in_place, signal="(RandomState(seed+41).randn(n)*1000).astype(dtype)",
+                                  first_bad_index=i, got=float(y[i]) if i >= 0 else None, expected=float(ref[i]) if i >= 0 else None,
+                                  x_i=float(x0[i]) if i >= 0 else None, x_prev=float(x0[i - 1]) if i > 0 else None), kind="impl")
+                    return
 
 
 def replay(ctx, rp):
